@@ -42,13 +42,24 @@ func c08configs() []c08cfg {
 				{Name: "s6", Constructor: P("pk.New"), Scope: P("contextual"), Args: []any{"@s5", "%p4%", "%p5%", "$gontainer"}, Calls: []Call{{Method: "With1", Args: []any{"%p6%"}, Immutable: P(true)}}, Getter: P("GetS6"), MustGetter: P(false)},
 				{Name: "s7", Type: P("pk.Val"), Scope: P("non_shared")},
 			},
-			Decorators: []Decorator{{Tag: "tg", Decorator: "zz.Dec1", Args: []any{"@s1"}}, {Tag: "tg", Decorator: "a.Dec2"}},
+			Decorators: []Decorator{{Tag: "tg", Decorator: "zz.Dec1", Args: []any{"@s1"}}, {Tag: "tg", Decorator: "a.Dec2"}, {Tag: "other", Decorator: "ab.Dec3"}, {Tag: "third", Decorator: "pk.Dec1", Args: []any{1}}, {Tag: "other", Decorator: "zz.Dec2"}},
 		}
 	}
 	one := func(c *Cfg) func() []File { return func() []File { return []File{{"c.yaml", c.YAML()}} } }
 	var out []c08cfg
 	out = append(out, c08cfg{id: "valid-rich", files: one(rich())})
 	out = append(out, c08cfg{id: "valid-rich-stub", files: one(rich()), flags: []string{"--stub"}})
+	// the same texts under another alias table (the aliases denote other packages), other functions behind the same names,
+	// a getter that the first configuration uses for another service
+	out = append(out, c08cfg{id: "valid-rich-aliases-rotated", files: one(func() *Cfg {
+		c := rich()
+		c.Meta.Imports = []KV{{"a", "fx/pk2"}, {"ab", "fx/pk"}, {"pk", "fx/ab"}, {"zz", "fx/b/pkg"}, {"pk.v2", "fx/os"}, {"pk.v2.x", "fx/errors"}, {"pk-v2", "fx/a/pkg"}}
+		c.Meta.Functions = []KV{{"f1", "zz.FnInt"}, {"f2", "pk.FnStr"}, {"f3", `"fx/pk2".FnE`}, {"env", "ab.FnStr"}, {"extra", "a.FnNil"}}
+		c.Params = append(c.Params, Param{"p7", `%extra()%`})
+		c.Services[1].Getter, c.Services[1].Type = nil, nil
+		c.Services[2].Getter = P("GetS1")
+		return c
+	}())})
 	// nothing in meta: package, container type and constructor are the documented defaults whatever the environment says
 	out = append(out, c08cfg{id: "valid-defaults-only", files: one(&Cfg{Params: []Param{{"p", `%env("HOME", "h")%`}}, Services: []Service{{Name: "s", Value: P("T{}"), Getter: P("GetS")}}})})
 	out = append(out, c08cfg{id: "case-colliding-keys", files: one(&Cfg{
@@ -448,6 +459,62 @@ func init() {
 					}
 					_ = pi
 				}
+			}
+			// what the process did before is not an input: every configuration built right after every other one (the
+			// predecessor with and without ignore flags / --stub) gives what it gives on its own
+			for _, cfg := range cfgs {
+				cfg := cfg
+				if cfg.args != nil {
+					continue
+				}
+				w.Case("process-history/"+cfg.id, func(c *C) {
+					build := func(x c08cfg, extra ...string) BuildResult {
+						return w.Build(x.files(), append(append([]string{}, x.flags...), extra...)...)
+					}
+					alone := build(cfg)
+					c.Distinct("all", c.ID)
+					// ... and what a fresh process gives (the real binary; only the version comment differs)
+					{
+						dir := w.FreshDir()
+						args := []string{"build"}
+						for _, f := range cfg.files() {
+							if d := filepath.Dir(f.Name); d != "." {
+								os.MkdirAll(d, 0o755)
+							}
+							os.WriteFile(f.Name, []byte(f.Content), 0o644)
+							args = append(args, "-i", f.Name)
+						}
+						args = append(append(args, "-o", "fresh.go"), cfg.flags...)
+						cmd := exec.Command(filepath.Join(w.Shared, "gontainer"), args...)
+						cmd.Dir = dir
+						cmd.Env = []string{"PATH=/usr/bin:/bin"}
+						out, err := cmd.CombinedOutput()
+						code := 0
+						if err != nil {
+							code = 1
+						}
+						fresh, _ := os.ReadFile(filepath.Join(dir, "fresh.go"))
+						if code != alone.Exit || stripVersionLine(string(fresh)) != stripVersionLine(alone.Output) || strings.Join(ErrorLines(string(out)), "\n") != strings.Join(ErrorLines(alone.Out), "\n") {
+							c.Violation("depends-on-earlier-builds:"+cfg.id, fmt.Sprintf("a fresh process and a process that has built other configurations before disagree on %s: exit %d vs %d; %s", cfg.id, code, alone.Exit, FirstDiff(stripVersionLine(string(fresh)), stripVersionLine(alone.Output))), FilesMap(cfg.files()), nil)
+							return
+						}
+					}
+					for _, pred := range cfgs {
+						if pred.args != nil {
+							continue
+						}
+						for _, pf := range [][]string{nil, {"--ignore-missing-params", "--ignore-missing-services"}, {"--stub"}} {
+							build(pred, pf...)
+							again := build(cfg)
+							c.Count("evaluations_extra")
+							c.Distinct("nontrivial", c.ID+"|"+pred.id+fmt.Sprint(pf))
+							if again.Exit != alone.Exit || strings.Join(ErrorLines(again.Out), "\n") != strings.Join(ErrorLines(alone.Out), "\n") || again.Output != alone.Output {
+								c.Violation("depends-on-earlier-builds:"+cfg.id, fmt.Sprintf("built right after %s %v in the same process, %s gives another result: exit %d vs %d; %s\n%s", pred.id, pf, cfg.id, again.Exit, alone.Exit, FirstDiff(alone.Output, again.Output), FirstDiff(strings.Join(ErrorLines(alone.Out), "\n"), strings.Join(ErrorLines(again.Out), "\n"))), FilesMap(cfg.files()), map[string]any{"predecessor": pred.id, "predecessor_flags": pf})
+								return
+							}
+						}
+					}
+				})
 			}
 			// how the YAML is written (block or flow style, key order of EVERY mapping incl. tag / decorator / service
 			// objects, anchors and aliases, merge keys, explicit tags, CRLF, BOM, document markers) is not an input either
